@@ -15,7 +15,7 @@ CLABEL = {1: "q1", 2: "c2", 3: "x3"}
 
 
 def frame_cfg(N, G, W, S, emit, nshards=1, shard=0, sim=False, laws=True):
-    inv = (["LawAggregates", "LawSigned", "LawWeightedMean", "LawPartition", "LawUnitWeights"] if laws else []) + ["EmitInv"]
+    inv = (["LawAggregates", "LawSigned", "LawTwoSF", "LawWeightedMean", "LawPartition", "LawUnitWeights"] if laws else []) + ["EmitInv"]
     return (f"CONSTANTS N = {N} G = {G} W = {W} S = {S} Emit = {'TRUE' if emit else 'FALSE'} NShards = {nshards} Shard = {shard}\n"
             f"INIT Init\nNEXT {'NextSim' if sim else 'Next'}\n" + "".join(f"INVARIANT {i}\n" for i in inv) + "CHECK_DEADLOCK FALSE\n")
 
